@@ -763,3 +763,89 @@ func c04ScriptedClientUpload(e *Env) {
 		e.Violate("C04.R2", "success-without-delivery:scripted-client-upload", "the peer never got past block %d and the upload reports success", lostAt)
 	}
 }
+
+// c04ScriptedSlowFetchFromServer: the library is the server of a resource whose representation is another one at every
+// execution of the handler and that carries no ETag (a reading, a counter); the scripted client fetches it block by
+// block, never slower than the transfer timeout from one block to the next - but the whole download takes longer than
+// the timeout. A transfer that is being served is alive: every block has to come from the execution that answered
+// block 0.
+func c04ScriptedSlowFetchFromServer(e *Env) {
+	t := e.Tape
+	tr := []string{TrUDP, TrTCP, TrDTLS}[t.Weighted(3, 2, 1)]
+	szx := blockwise.SZX(t.Choose(2))
+	bs := 16 << uint(szx)
+	nBlocks := 4 + t.Choose(4)
+	gap := []time.Duration{2 * time.Second, 4 * time.Second, 4999 * time.Millisecond, time.Second}[t.Choose(4)]
+	size := nBlocks*bs - t.Choose(bs)
+	gens := 0
+	router := mux.NewRouter()
+	router.DefaultHandle(mux.HandlerFunc(func(rw mux.ResponseWriter, r *mux.Message) {
+		if r.Code() != codes.GET {
+			return
+		}
+		e.mu.Lock()
+		gens++
+		g := gens
+		e.mu.Unlock()
+		e.Notef("handler: execution %d", g)
+		_ = rw.SetResponse(codes.Content, message.AppOctets, bytes.NewReader(Body(500+g, size)))
+	}))
+	w := c04World(e, tr, szx, router)
+	if w == nil {
+		return
+	}
+	e.NonTrivial()
+	e.Logf("cfg transport=%s block=%d blocks=%d gap=%v (transfer timeout 5s) whole download=%v", tr, bs, nBlocks, gap, time.Duration(nBlocks-1)*gap)
+	if time.Duration(nBlocks-1)*gap > 5*time.Second {
+		e.Probe("slowFetch.longerThanTheTransferTimeout")
+	}
+	token := []byte{0x5a, 0x01}
+	var answers []*WMsg
+	w.OnRecv = func(m *WMsg) {
+		if bytes.Equal(m.Token, token) && m.Code != 0 {
+			answers = append(answers, m)
+		}
+	}
+	want := Body(501, size)
+	var got []byte
+	for num := 0; num < nBlocks; num++ {
+		if num > 0 {
+			// time passes, the housekeeping looks in
+			for left := gap; left > 0; left -= time.Second {
+				step := time.Second
+				if left < step {
+					step = left
+				}
+				e.Sleep(step)
+				w.Tick(time.Now())
+				e.Wait()
+				w.Pump()
+			}
+		}
+		answers = nil
+		req := &WMsg{Type: TCON, Code: 1, MID: w.NextPeerMID(), Token: token, Opts: []WOpt{{Num: OptURIPath, Val: []byte("r")}, UintOpt(OptBlock2, BlockOpt(uint32(num), false, uint32(szx)))}}
+		it := w.Queue(req, fmt.Sprintf("get block %d", num))
+		it.NoDup, it.NoDrop = true, true
+		w.Emit(it, false)
+		e.Wait()
+		w.Pump()
+		if len(answers) != 1 || answers[0].Code != 0x45 {
+			e.Violate("C04.R5", "block-not-served:scripted-slow-fetch", "block %d asked for %v after the previous one: %d answers %v", num, gap, len(answers), answers)
+			return
+		}
+		pl := answers[0].Payload
+		lo := num * bs
+		hi := lo + len(pl)
+		if hi > len(want) || !bytes.Equal(pl, want[lo:hi]) {
+			e.mu.Lock()
+			g := gens
+			e.mu.Unlock()
+			e.Violate("C04.R1", "body-is-a-mixture-of-two-executions:scripted-slow-fetch", "block %d, asked for %v after block %d (transfer timeout 5s), is not from the execution that served block 0; the handler has run %d times", num, gap, num-1, g)
+			return
+		}
+		got = append(got, pl...)
+	}
+	if !bytes.Equal(got, want) {
+		e.Violate("C04.R1", "body-differs:scripted-slow-fetch", "the %d blocks add up to %d bytes, the handler supplied %d", nBlocks, len(got), len(want))
+	}
+}
